@@ -29,9 +29,12 @@ VARIABLES l,      \* next trace line
           enc,    \* handle -> [o, bytes, clean]: last encoding, the model state it was made in, and whether no event
                   \*   has named the handle since
           memo,   \* frame -> outcome of its first decode in this program
-          diag    \* handle -> [string, dump] of the last Diag
+          diag,   \* handle -> [string, dump] of the last Diag
+          wanted    \* handle -> accessor record of a packet built through the API as the calls alone determine it: pool is
+                  \*   re-synchronised to the observation after a divergence (so that one defect is reported once under
+                  \*   C12), wanted never is; "the values that were set" of C01 / C02 are wanted
 
-tvars == <<l, k, ph, prog, from, contig, enc, memo, diag, pool, svars>>
+tvars == <<l, k, ph, prog, from, contig, enc, memo, diag, wanted, pool, svars>>
 
 (* register 1: the notes kept (at most MaxPerProp per property); register 2: property -> number of notes *)
 MaxPerProp == 60
@@ -95,11 +98,18 @@ KeepStream == UNCHANGED svars
 KeepAux == UNCHANGED <<from, contig, enc, memo, diag>>
 (* the event names handle h: its last encoding no longer stands for an untouched packet *)
 Touch(h) == enc' = IF h \in DOMAIN enc THEN [enc EXCEPT ![h].clean = FALSE] ELSE enc
+(* what was set on handle h through the API (wanted), else what the model holds for it *)
+Drop(h) == wanted' = [x \in DOMAIN wanted \ {h} |-> wanted[x]]
+SetOf(h) == IF h \in DOMAIN wanted THEN wanted[h] ELSE pool[h].o
+WillOfW(g, h) == g \in DOMAIN wanted /\ "Will" \in DOMAIN wanted[g] /\ wanted[g]["Will"].has /\ "ref" \in DOMAIN wanted[g]["Will"] /\ wanted[g]["Will"].ref = h
+RelinkW(w, h) == [g \in DOMAIN w |-> IF g # h /\ WillOfW(g, h) /\ h \in DOMAIN w
+                                      THEN [w[g] EXCEPT !["Will"] = [@ EXCEPT !.val = WillSnapshot(w[h]), !.stale = TRUE]]
+                                      ELSE w[g]]
 KeepAuxTouch(h) == UNCHANGED <<from, contig, memo, diag>> /\ Touch(h)
 
 EvReset(e) ==
   /\ prog' = [id |-> e.prog, fam |-> e.fam]
-  /\ pool' = EmptyFn /\ enc' = EmptyFn /\ memo' = EmptyFn /\ diag' = EmptyFn
+  /\ pool' = EmptyFn /\ enc' = EmptyFn /\ memo' = EmptyFn /\ diag' = EmptyFn /\ wanted' = EmptyFn
   /\ from' = 0 /\ contig' = TRUE
   /\ wire' = <<>> /\ limit' = 0 /\ fate' = "eof" /\ with' = FALSE /\ pos' = 0 /\ rp' = Idle
 
@@ -111,12 +121,14 @@ EvNew(e) ==
                                           [keys |-> ObsDiff(NewObs(t), e.obs)])
                                /\ WFCheck(t, NewObs(t), e.obs))
      ELSE Put(e.h, [t |-> t, o |-> IF Has(e, "obs") THEN Adopt(t, e.obs) ELSE NewObs(t)])   \* zero value: adopted
+  /\ IF e.how = "new" THEN wanted' = (e.h :> NewObs(t)) @@ wanted ELSE Drop(e.h)
   /\ Bystanders(e, e.h)
   /\ KeepStream /\ KeepAuxTouch(e.h) /\ UNCHANGED prog
 
 EvPub(e) ==
   LET o == PubObs(e.args[1], e.args[2], e.args[3]) IN
   /\ Pub(e.h, e.args[1], e.args[2], e.args[3])
+  /\ wanted' = (e.h :> o) @@ wanted
   /\ (Has(e, "obs") => /\ NoteIf(ObsDiff(o, e.obs) # {}, "C12", "Pub does not report its arguments", [keys |-> ObsDiff(o, e.obs)])
                        /\ WFCheck(3, o, e.obs))
   /\ Bystanders(e, e.h)
@@ -141,10 +153,15 @@ EvCall(e) ==
        IN /\ IF d = {} THEN pool' = Relink([pool EXCEPT ![h].o = o2])       \* = PacketAPI!Call(h, e.m, e.args), wills relinked
              ELSE /\ Note("C12", "accessors after the call differ from the record-of-fields model", [m |-> e.m, keys |-> d])
                   /\ pool' = Relink([pool EXCEPT ![h].o = Adopt(t, e.obs)])
+          /\ wanted' = IF h \in DOMAIN wanted
+                     THEN LET wpw == IF e.m = "SetWill" THEN SetOf(e.args[1].h) ELSE EmptyFn IN
+                          RelinkW([wanted EXCEPT ![h] = Apply(t, wanted[h], e.m, CallArgs(e), wpw)], h)
+                     ELSE wanted
           /\ (Has(e, "obs") => WFCheck(t, o2, e.obs))
           /\ Bystanders(e, h)
           /\ KeepStream /\ KeepAuxTouch(h) /\ UNCHANGED prog
   ELSE /\ Note("SPEC", "call not known to the model", [m |-> e.m])
+       /\ Drop(h)
        /\ pool' = IF h \in DOMAIN pool /\ Has(e, "obs") THEN [pool EXCEPT ![h].o = Adopt(pool[h].t, e.obs)] ELSE pool
        /\ KeepStream /\ KeepAuxTouch(h) /\ UNCHANGED prog
 
@@ -154,6 +171,7 @@ EvWriteTo(e) ==
   LET h == e.h
       t == pool[h].t
       o == pool[h].o
+      os == SetOf(h)                 \* what was set (differs from o only after a divergence already noted under C12)
       bytes == Concat(e.offered)
       good == e.wkind = "all"
   IN /\ NoteIf(~WriteOutcomeOK(t, bytes, e.writes, e.n, e.err, e.strN), "C10",
@@ -166,17 +184,17 @@ EvWriteTo(e) ==
              NoteIf(rl.kind # "value" \/ (rl.kind = "value" /\ (~rl.minimal \/ rl.val # Len(bytes) - 1 - rl.width)), "C15",
                     "remaining length not written as the minimal form of the number of bytes that follow", [head |-> SubSeq(bytes, 1, IF Len(bytes) < 6 THEN Len(bytes) ELSE 6), len |-> Len(bytes)])
         ELSE TRUE
-     /\ (good /\ t # 0 /\ InC02Domain(t, o) /\ Framed(bytes) => Count("c02-judged"))
+     /\ (good /\ t # 0 /\ InC02Domain(t, os) /\ Framed(bytes) => Count("c02-judged"))
      /\ (~good => Count("write-faulty"))
-     /\ IF good /\ t # 0 /\ InC02Domain(t, o) /\ Framed(bytes)
+     /\ IF good /\ t # 0 /\ InC02Domain(t, os) /\ Framed(bytes)
         THEN LET d == StrictDecode(bytes) IN
              IF ~d.ok THEN /\ Note("C02", "frame rejected by the strict reading of MQTT v5.0", [why |-> d.why, at |-> d.at, frame |-> bytes])
                            /\ NoteIf(prog.fam \in {"api", "reuse"}, "C12", "the encoded frame does not reflect the final state of the setters", [why |-> d.why])
              ELSE /\ NoteIf(d.pkt.t # t, "C02", "frame carries another packet type", [t |-> d.pkt.t])
-                  /\ NoteIf(prog.fam \in {"api", "reuse"} /\ d.pkt.t = t /\ ObsDiff(o, ObsOfWire(d.pkt)) # {}, "C12",
-                            "the encoded frame does not reflect the final state of the setters", [keys |-> ObsDiff(o, ObsOfWire(d.pkt))])
-                  /\ NoteIf(d.pkt.t = t /\ ObsDiff(o, ObsOfWire(d.pkt)) # {}, "C02", "frame does not carry the values that were set",
-                            [keys |-> IF d.pkt.t = t THEN ObsDiff(o, ObsOfWire(d.pkt)) ELSE {}, frame |-> bytes])
+                  /\ NoteIf(prog.fam \in {"api", "reuse"} /\ d.pkt.t = t /\ ObsDiff(os, ObsOfWire(d.pkt)) # {}, "C12",
+                            "the encoded frame does not reflect the final state of the setters", [keys |-> ObsDiff(os, ObsOfWire(d.pkt))])
+                  /\ NoteIf(d.pkt.t = t /\ ObsDiff(os, ObsOfWire(d.pkt)) # {}, "C02", "frame does not carry the values that were set",
+                            [keys |-> IF d.pkt.t = t THEN ObsDiff(os, ObsOfWire(d.pkt)) ELSE {}, frame |-> bytes])
         ELSE TRUE
      /\ IF good /\ h \in DOMAIN enc /\ enc[h].o = o
         THEN NoteIf(enc[h].bytes # bytes, "C11", "the same packet was written as different bytes", [a |-> enc[h].bytes, b |-> bytes])
@@ -187,7 +205,7 @@ EvWriteTo(e) ==
         ELSE TRUE
      /\ enc' = IF good THEN (h :> [o |-> o, bytes |-> bytes, clean |-> TRUE]) @@ enc ELSE enc
      /\ Bystanders(e, h)
-     /\ UNCHANGED <<pool, from, contig, memo, diag, prog>> /\ KeepStream
+     /\ UNCHANGED <<pool, wanted, from, contig, memo, diag, prog>> /\ KeepStream
 
 EvWriteN(e) ==
   LET h == e.h  o == pool[h].o IN
@@ -197,21 +215,22 @@ EvWriteN(e) ==
      ELSE TRUE
   /\ (Has(e, "obs") => NoteIf(ObsDiff(o, e.obs) # {}, "C11", "WriteTo changed what the accessors return", [keys |-> ObsDiff(o, e.obs)]))
   /\ enc' = IF Len(e.outs) >= 1 THEN (h :> [o |-> o, bytes |-> e.outs[1], clean |-> TRUE]) @@ enc ELSE enc
-  /\ UNCHANGED <<pool, from, contig, memo, diag, prog>> /\ KeepStream
+  /\ UNCHANGED <<pool, wanted, from, contig, memo, diag, prog>> /\ KeepStream
 
 (* values the caller keeps and reuses: a TopicFilter (type 16), a []TopicFilter passed with "..." (type 17) *)
 EvNewFilter(e) ==
   LET o == [Filter |-> e.args[1], Options |-> e.args[2]] IN
-  /\ Put(e.h, [t |-> 16, o |-> o])
+  /\ Put(e.h, [t |-> 16, o |-> o]) /\ Drop(e.h)
   /\ (Has(e, "obs") => NoteIf(ObsDiff(o, e.obs) # {}, "C12", "TopicFilter does not report its arguments", [keys |-> ObsDiff(o, e.obs)]))
   /\ Bystanders(e, e.h)
   /\ KeepStream /\ KeepAux /\ UNCHANGED prog
 EvSlice(e) ==
-  /\ Put(e.h, [t |-> 17, o |-> [Items |-> e.args]])
+  /\ Put(e.h, [t |-> 17, o |-> [Items |-> e.args]]) /\ Drop(e.h)
   /\ KeepStream /\ KeepAux /\ UNCHANGED prog
 EvSliceSet(e) ==          \* the caller writes into its own slice: no packet may change (no re-synchronisation: the packets keep
   /\ Bystanders(e, 0)    \* the values that were set, so a later WriteTo is still judged against them)
   /\ pool' = [pool EXCEPT ![e.h].o["Items"] = IF e.n >= Len(@) THEN Append(@, e.args[1]) ELSE [@ EXCEPT ![e.n + 1] = e.args[1]]]
+  /\ UNCHANGED wanted
   /\ KeepStream /\ KeepAux /\ UNCHANGED prog
 EvCallSpread(e) ==        \* p.M(xs...) with xs the caller's slice or the list another packet's accessor returned
   LET h == e.h  t == pool[h].t
@@ -220,6 +239,7 @@ EvCallSpread(e) ==        \* p.M(xs...) with xs the caller's slice or the list a
       d == IF Has(e, "obs") THEN ObsDiff(o2, e.obs) ELSE {}
   IN /\ NoteIf(d # {}, "C12", "accessors after the call differ from the record-of-fields model", [m |-> e.m, keys |-> d])
      /\ pool' = [pool EXCEPT ![h].o = o2]
+     /\ wanted' = IF h \in DOMAIN wanted THEN [wanted EXCEPT ![h] = Apply(t, @, e.m, xs, EmptyFn)] ELSE wanted
      /\ Bystanders(e, h)
      /\ KeepStream /\ KeepAuxTouch(h) /\ UNCHANGED prog
 
@@ -232,6 +252,11 @@ EvCallElem(e) ==
       d == IF Has(e, "obs") THEN ObsDiff(o2, e.obs) ELSE {}
   IN /\ NoteIf(d # {}, "C12", "accessors after a setter on a list element differ from the record-of-fields model", [m |-> e.m, keys |-> d])
      /\ pool' = [pool EXCEPT ![h].o = o2]
+     /\ wanted' = IF h \in DOMAIN wanted /\ e.n + 1 <= Len(wanted[h][e.key])
+                THEN LET wl == wanted[h][e.key][e.n + 1]
+                         wl2 == IF e.m = "SetFilter" THEN <<e.args[1], wl[2]>> ELSE IF e.m = "SetOptions" THEN <<wl[1], e.args[1]>> ELSE wl
+                     IN [wanted EXCEPT ![h][e.key] = [@ EXCEPT ![e.n + 1] = wl2]]
+                ELSE wanted
      /\ (Has(e, "obs") => WFCheck(t, o2, e.obs))
      /\ Bystanders(e, h)
      /\ KeepStream /\ KeepAuxTouch(h) /\ UNCHANGED prog
@@ -239,7 +264,7 @@ EvCallElem(e) ==
 EvStream(e) ==
   /\ wire' = e.bytes /\ limit' = e.limit /\ fate' = e.fate /\ with' = e.with /\ pos' = 0 /\ rp' = Idle
   /\ from' = e.from /\ contig' = (e.contig /\ e.limit = Len(e.bytes))
-  /\ UNCHANGED <<pool, enc, memo, diag, prog>>
+  /\ UNCHANGED <<pool, wanted, enc, memo, diag, prog>>
 
 (* String / Dump / WellFormed on a live packet: total (C19), consistent (C17), *)
 (* read-only (C11)                                                             *)
@@ -252,12 +277,12 @@ EvDiag(e) ==
   /\ (Has(e, "obs") => NoteIf(ObsDiff(o, e.obs) # {}, "C11", "String/Dump changed what the accessors return", [keys |-> ObsDiff(o, e.obs)]))
   \* as-built rendering of String (spec/MQLib.tla): a difference is a drift note, never a verdict
   /\ IF Has(e, "first") /\ e.strN >= 0 /\ (t # 14 \/ "ReasonString" \in DOMAIN o)
-     THEN LET want == StringOf(t, o, e.first, e.strN) IN
-          NoteIf(e.string # want, "DRIFT", "String() differs from the as-built rendering", [type |-> t, got |-> e.string, want |-> want])
+     THEN LET wantstr == StringOf(t, o, e.first, e.strN) IN
+          NoteIf(e.string # wantstr, "DRIFT", "String() differs from the as-built rendering", [type |-> t, got |-> e.string, want |-> wantstr])
      ELSE TRUE
   /\ diag' = (h :> [string |-> e.string, dump |-> e.dump]) @@ diag
   /\ Bystanders(e, h)
-  /\ UNCHANGED <<pool, from, contig, enc, memo, prog>> /\ KeepStream
+  /\ UNCHANGED <<pool, wanted, from, contig, enc, memo, prog>> /\ KeepStream
 
 (* credentials replaced by [empty?, length] *)
 Redact(o) == [o EXCEPT !["Username"] = <<Len(@)>>, !["Password"] = <<Len(@)>>,
@@ -270,13 +295,13 @@ EvCmpDiag(e) ==
      THEN /\ NoteIf(diag[a].dump # diag[b].dump, "C18", "Dump depends on the content of the credentials", [hs |-> e.hs])
           /\ NoteIf(diag[a].string # diag[b].string, "C18", "String depends on the content of the credentials", [hs |-> e.hs])
      ELSE Note("SPEC", "CmpDiag on packets that are not low-equivalent", [hs |-> e.hs])
-  /\ UNCHANGED <<pool, from, contig, enc, memo, diag, prog>> /\ KeepStream
+  /\ UNCHANGED <<pool, wanted, from, contig, enc, memo, diag, prog>> /\ KeepStream
 
 EvFilter(e) ==
   LET f == <<e.args[1], e.args[2]>> IN
   /\ NoteIf(e.wfErr = FilterWF(f), "C17", "TopicFilter.WellFormed disagrees with the documented rule", [wfErr |-> e.wfErr])
   /\ NoteIf(e.filter # e.args[1] \/ e.options # e.args[2], "C12", "TopicFilter does not report its arguments", [f |-> f])
-  /\ UNCHANGED <<pool, from, contig, enc, memo, diag, prog>> /\ KeepStream
+  /\ UNCHANGED <<pool, wanted, from, contig, enc, memo, diag, prog>> /\ KeepStream
 
 (* direct UnmarshalBinary of a buffer: the result is adopted; totality and   *)
 (* list bounds are judged (C04, C05)                                         *)
@@ -296,7 +321,7 @@ EvUnmarshal(e) ==
   /\ AllocBound(e, Len(e.data))
   /\ pool' = (e.h :> [t |-> t, o |-> IF Has(e, "obs") THEN Adopt(t, e.obs) ELSE NewObs(t)]) @@ pool
   /\ Bystanders(e, e.h)
-  /\ Touch(e.h) /\ UNCHANGED <<from, contig, memo, diag, prog>> /\ KeepStream
+  /\ Touch(e.h) /\ Drop(e.h) /\ UNCHANGED <<from, contig, memo, diag, prog>> /\ KeepStream
 
 (* after a divergence the model takes over what was observed, so that one defect is reported once *)
 Resync(e) == IF ~Has(e, "all") THEN pool
@@ -307,7 +332,7 @@ Resync(e) == IF ~Has(e, "all") THEN pool
 EvScribble(e) ==
   /\ Bystanders(e, 0)
   /\ pool' = Resync(e)
-  /\ UNCHANGED <<from, contig, enc, memo, diag, prog>> /\ KeepStream
+  /\ UNCHANGED <<wanted, from, contig, enc, memo, diag, prog>> /\ KeepStream
 
 (* the caller overwrote a slice it got from an accessor of e.h: that packet may change, no other *)
 EvScribbleSlice(e) ==
@@ -316,10 +341,12 @@ EvScribbleSlice(e) ==
              THEN [pool EXCEPT ![e.h].o = Adopt(pool[e.h].t, e.all[CHOOSE j \in 1..Len(e.all) : e.all[j][1] = e.h][2])]
              ELSE pool
   /\ enc' = [x \in DOMAIN enc \ {e.h} |-> enc[x]]
+  /\ Drop(e.h)
   /\ UNCHANGED <<from, contig, memo, diag, prog>> /\ KeepStream
 
 PanicProp(op) == IF op \in {"ReadPacket", "Unmarshal"} THEN "C04"
                  ELSE IF op = "Diag" THEN "C19"
+                 ELSE IF op = "WellFormed" THEN "C17"            \* raised while the driver observed the packet: see project.go
                  ELSE IF op \in {"WriteTo", "WriteN"} THEN "C10"
                  ELSE "C12"
 (* the frame a ReadPacket call that never returned was about to read *)
@@ -335,10 +362,10 @@ EvPanic(e) ==
           /\ NoteIf(from # 0 /\ from \in DOMAIN enc /\ enc[from].bytes = PendingFrame, "C01", "own output made the decoder panic",
                     [site |-> e.site, frame |-> PendingFrame])
      ELSE TRUE
-  /\ UNCHANGED <<pool, from, contig, enc, memo, diag, prog>> /\ KeepStream
+  /\ UNCHANGED <<pool, wanted, from, contig, enc, memo, diag, prog>> /\ KeepStream
 EvBudget(e) ==
   /\ Note("C05", "decoding exceeded the work bound of the frame", [steps |-> e.steps, limit |-> e.limit])
-  /\ UNCHANGED <<pool, from, contig, enc, memo, diag, prog>> /\ KeepStream
+  /\ UNCHANGED <<pool, wanted, from, contig, enc, memo, diag, prog>> /\ KeepStream
 AbortProp(op) == IF op = "Diag" THEN "C19"
                  ELSE IF op \in {"WriteTo", "WriteN"} THEN "C10"
                  ELSE IF op = "Conc" THEN "C13"
@@ -346,15 +373,15 @@ AbortProp(op) == IF op = "Diag" THEN "C19"
                  ELSE "C05"                                      \* ReadPacket, Unmarshal, unknown
 EvAbort(e) ==
   /\ Note(AbortProp(e.op), "operation did not return within the time / memory budget", [why |-> e.why, op |-> e.op])
-  /\ UNCHANGED <<pool, from, contig, enc, memo, diag, prog>> /\ KeepStream
-EvOther(e) == UNCHANGED <<pool, from, contig, enc, memo, diag, prog>> /\ KeepStream
+  /\ UNCHANGED <<pool, wanted, from, contig, enc, memo, diag, prog>> /\ KeepStream
+EvOther(e) == UNCHANGED <<pool, wanted, from, contig, enc, memo, diag, prog>> /\ KeepStream
 
 (* variable byte integers through hook H1 (C15).  The driver also logs the answer of its own   *)
 (* transcription of VBI4 / VBIRead (used by the exhaustive Go sweep); it is validated here.     *)
 EvVBIEnc(e) ==
   /\ NoteIf(e.bytes # VBI(e.v), "C15", "value not written in the unique minimal form", [v |-> e.v, bytes |-> e.bytes])
   /\ NoteIf(e.ref # VBI4(e.v) \/ VBI(e.v) # VBI4(e.v), "HARNESS", "transcription of VBI4 disagrees with the specification", [v |-> e.v])
-  /\ UNCHANGED <<pool, from, contig, enc, memo, diag, prog>> /\ KeepStream
+  /\ UNCHANGED <<pool, wanted, from, contig, enc, memo, diag, prog>> /\ KeepStream
 
 EvVBIDec(e) ==
   LET r == VBIRead(e.bytes)
@@ -366,14 +393,14 @@ EvVBIDec(e) ==
                  [bytes |-> e.bytes, why |-> r.why, mem |-> e.mem.ok, stream |-> e.stream.ok])
      ELSE IF r.minimal
      THEN /\ NoteIf(~(e.mem.ok /\ e.mem.val = r.val /\ e.mem.width = r.width), "C15",
-                     "in-memory decoder: wrong value or wrong number of bytes advanced", [bytes |-> e.bytes, mem |-> e.mem, want |-> r])
+                     "in-memory decoder: wrong value or wrong number of bytes advanced", [bytes |-> e.bytes, mem |-> e.mem, wanted |-> r])
           /\ NoteIf(~(e.stream.ok /\ e.stream.val = r.val /\ e.stream.n = r.width), "C15",
-                     "streaming decoder: wrong value or wrong number of bytes read", [bytes |-> e.bytes, stream |-> e.stream, want |-> r])
+                     "streaming decoder: wrong value or wrong number of bytes read", [bytes |-> e.bytes, stream |-> e.stream, wanted |-> r])
      ELSE TRUE
   /\ NoteIf((e.ref.kind = 1) # (r.kind = "value")
             \/ (r.kind = "value" /\ (e.ref.val # r.val \/ e.ref.width # r.width \/ e.ref.minimal # r.minimal)),
             "HARNESS", "transcription of VBIRead disagrees with the specification", [bytes |-> e.bytes])
-  /\ UNCHANGED <<pool, from, contig, enc, memo, diag, prog>> /\ KeepStream
+  /\ UNCHANGED <<pool, wanted, from, contig, enc, memo, diag, prog>> /\ KeepStream
 
 (* concurrent read-only operations: every goroutine completed, produced the sequential bytes, changed nothing *)
 EvConc(e) ==
@@ -398,15 +425,15 @@ EvConc(e) ==
         THEN NoteIf(a.bytes # b.bytes, "C13", "two concurrent WriteTo calls on one packet gave different bytes", [h |-> a.h])
         ELSE TRUE
   /\ Bystanders(e, 0)
-  /\ UNCHANGED <<pool, from, contig, enc, memo, diag, prog>> /\ KeepStream
+  /\ UNCHANGED <<pool, wanted, from, contig, enc, memo, diag, prog>> /\ KeepStream
 (* the first encoding of one program, executed in several worker processes (different hash seeds) *)
 EvXProc(e) ==
   /\ NoteIf(\E j \in 2..Len(e.outs) : e.outs[j] # e.outs[1], "C11", "another process wrote the same packet as different bytes",
             [n |-> Len(e.outs)])
-  /\ UNCHANGED <<pool, from, contig, enc, memo, diag, prog>> /\ KeepStream
+  /\ UNCHANGED <<pool, wanted, from, contig, enc, memo, diag, prog>> /\ KeepStream
 EvRace(e) ==
   /\ Note("C13", "data race reported by the Go race detector", [sites |-> e.sites])
-  /\ UNCHANGED <<pool, from, contig, enc, memo, diag, prog>> /\ KeepStream
+  /\ UNCHANGED <<pool, wanted, from, contig, enc, memo, diag, prog>> /\ KeepStream
 
 Step(e) ==
   IF e.ev = "Reset" THEN EvReset(e)
@@ -440,7 +467,7 @@ Step(e) ==
 (***************************************************************************)
 (*   a ReadPacket call: RP_Call, (RP_Read ; T_Return)*, RP_Return          *)
 (***************************************************************************)
-KeepObj == UNCHANGED <<pool, prog, from, contig, enc, memo, diag>>
+KeepObj == UNCHANGED <<pool, wanted, prog, from, contig, enc, memo, diag>>
 
 ReadCall(e) ==                                       \* k = 0
   /\ RP_Call
@@ -473,7 +500,7 @@ ReadReturn(e) ==                                     \* k = Len(calls) + 1
       v == IF judge /\ prog.fam # "many" THEN Verdict(g) ELSE [kind |-> "none"]   \* long lists: only the resource bounds are judged
       t1 == IF Len(g) > 0 THEN g[1] \div 16 ELSE -1
       rt == IF Has(e, "obs") THEN RealType(e.obs) ELSE -1
-      src == IF from # 0 /\ from \in DOMAIN pool THEN pool[from] ELSE [t |-> -1]
+      src == IF from # 0 /\ from \in DOMAIN pool THEN [t |-> pool[from].t, o |-> SetOf(from)] ELSE [t |-> -1]
       rtrip == judge /\ src.t >= 0 /\ InC01Domain(src.t, src.o) /\ from \in DOMAIN enc /\ enc[from].bytes = g
   IN
   /\ Count("Read") /\ Count("verdict-" \o v.kind)
@@ -494,7 +521,7 @@ ReadReturn(e) ==                                     \* k = Len(calls) + 1
   /\ NoteIf(prog.fam = "seq" /\ v.kind = "accept" /\ ~e.ok, "C06", "a frame of the sequence was not returned by its call", [frame |-> g, pos |-> rp.start])
   /\ IF v.kind = "accept"
      THEN IF ~e.ok THEN Note("C03", "valid frame rejected", [frame |-> g, err |-> IF Has(e, "errtext") THEN e.errtext ELSE ""])
-          ELSE /\ NoteIf(rt # v.pkt.t, "C03", "valid frame decoded to another packet type", [want |-> v.pkt.t, got |-> rt])
+          ELSE /\ NoteIf(rt # v.pkt.t, "C03", "valid frame decoded to another packet type", [wanted |-> v.pkt.t, got |-> rt])
                /\ NoteIf(rt = v.pkt.t /\ ObsDiff(ObsOfWire(v.pkt), e.obs) \cap {"SubscriptionIDs", "SubscriptionID"} # {}, "C15",
                          "a subscription identifier (variable byte integer) decoded to another value", [frame |-> g])
                /\ NoteIf(rt = v.pkt.t /\ ObsDiff(ObsOfWire(v.pkt), e.obs) # {}, "C03", "accessors differ from the values the frame carries",
@@ -516,7 +543,7 @@ ReadReturn(e) ==                                     \* k = Len(calls) + 1
   \* round trip of a packet built through the API (C01)
   /\ IF rtrip
      THEN IF ~e.ok THEN Note("C01", "own output not readable", [frame |-> g, err |-> IF Has(e, "errtext") THEN e.errtext ELSE ""])
-          ELSE /\ NoteIf(rt # src.t, "C01", "round trip changed the packet type", [want |-> src.t, got |-> rt])
+          ELSE /\ NoteIf(rt # src.t, "C01", "round trip changed the packet type", [wanted |-> src.t, got |-> rt])
                /\ NoteIf(rt = src.t /\ ObsDiff(src.o, e.obs) # {}, "C01", "round trip changed accessor values",
                          [keys |-> IF rt = src.t THEN ObsDiff(src.o, e.obs) ELSE {}, frame |-> g])
                /\ NoteIf(e.reencFailed \/ e.reenc # g, "C01", "decoded packet is not written as the same bytes", [frame |-> g, reenc |-> e.reenc])
@@ -543,6 +570,7 @@ ReadReturn(e) ==                                     \* k = Len(calls) + 1
   /\ Bystanders(e, e.h)                              \* reading a frame changes no packet returned earlier
   /\ RP_ReturnEff
   /\ k' = 0 /\ ph' = "req" /\ l' = l + 1
+  /\ Drop(e.h)
   /\ UNCHANGED <<prog, from, contig, diag>>
 
 (* ReadPacket was given a *bufio.Reader (or another standard reader) on top of the transport: the library's own      *)
@@ -579,6 +607,7 @@ ReadWrapped(e) ==
   /\ pos' = IF e.pos1 >= 0 /\ e.pos1 <= limit THEN e.pos1 ELSE pos
   /\ rp' = [rp EXCEPT !.st = "done", !.start = e.pos0, !.got = e.pos1 - e.pos0]
   /\ UNCHANGED <<wire, limit, fate, with, prog, from, contig, memo, diag>>
+  /\ Drop(e.h)
   /\ k' = 0 /\ ph' = "req" /\ l' = l + 1
 
 ReadEvent(e) ==
@@ -591,7 +620,7 @@ ReadEvent(e) ==
 Init ==
   /\ l = 1 /\ k = 0 /\ ph = "req"
   /\ prog = [id |-> "", fam |-> ""]
-  /\ pool = EmptyFn /\ enc = EmptyFn /\ memo = EmptyFn /\ diag = EmptyFn
+  /\ pool = EmptyFn /\ enc = EmptyFn /\ memo = EmptyFn /\ diag = EmptyFn /\ wanted = EmptyFn
   /\ from = 0 /\ contig = TRUE
   /\ wire = <<>> /\ limit = 0 /\ fate = "eof" /\ with = FALSE /\ pos = 0 /\ rp = Idle
   /\ TLCSet(1, <<>>) /\ TLCSet(2, EmptyFn) /\ TLCSet(3, 0) /\ TLCSet(4, EmptyFn)
